@@ -82,14 +82,17 @@ def run(ctx):
     rng = ctx.rng
     stats = {"impl_runs": 0, "trees": 0, "exhaustive_sentences": 0}
     problems = []
-    nmodels = ctx.pick(25, 800)
+    nmodels = 1 if ctx.replay_model else ctx.pick(25, 800)
     nontrivial = set()
     unk = -100 * lc.UNIT
     for mi in range(nmodels):
-        m = lc.gen_model(rng, max_order=ctx.pick(5, 6), max_vocab=ctx.pick(8, 30), estimator_like=True)
+        m = ctx.replay_model or lc.gen_model(rng, max_order=ctx.pick(5, 6), max_vocab=ctx.pick(8, 30), estimator_like=True)
         sess = lc.Session(ctx, m, "m%d" % mi)
         sents = [s for _, s in lc.gen_queries(rng, m, ctx.pick(12, 40))]
         cases = []
+        ro = ctx.replay_obj if ctx.replaying else {}
+        if "tree" in ro and "sentence" in ro:
+            cases.append((list(ro["sentence"]), bool(ro.get("bos")), ro["tree"].split()))
         for s in sents:
             s = s[:9]
             if not s:
@@ -160,6 +163,8 @@ def run(ctx):
                 break
         # ---- lm/partial.hh: reveal context incrementally on both sides of a fragment (CheckAdjustment of partial_test.cc)
         pcases = []
+        if "between" in ro:
+            pcases.append((list(ro.get("before", [])), list(ro["between"]), list(ro.get("after", []))))
         for s in sents:
             s = s[:8]
             for _ in range(ctx.pick(3, 8)):
@@ -203,6 +208,8 @@ def run(ctx):
                         problems.append(("correspondence:partial:" + typ, "implementation %s, model %s" % (line, mres2[lc.CHART_KIND[typ]][ci]), rq, False))
         # ---- Subsume: merging two adjacent fragments accumulates whole minus parts and yields the whole's chart state
         ucases = []
+        if isinstance(ro.get("first"), list) and isinstance(ro.get("second"), list):
+            ucases.append((list(ro["first"]), list(ro["second"])))
         for s in sents:
             s = s[:8]
             for a in range(0, len(s) + 1):
@@ -270,3 +277,8 @@ def run(ctx):
         for sig, what, rq, found in problems:
             ctx.report(sig, what, rq, False)
         ctx.report_proof(pres)
+
+
+def replay(ctx, obj):
+    import sys
+    return lc.lm_replay(sys.modules[__name__], ctx, obj)
